@@ -32,7 +32,8 @@ def gen(run, cfg, ov, name, timeout=900):
     try:
         cases = [json.loads(x) for x in r.lines("VCASE")]
         tab = json.loads(tabs[0])
-        tab["nvariants"] = 4          # a per-run bound, not part of the tables
+        tab["nvariants"] = 4          # per-run bounds, not part of the tables
+        tab["refvariants"] = 7
     except ValueError as e:
         raise Inconclusive("generation %s: unparsable TLC output: %s" % (name, e))
     if not cases:
